@@ -17,12 +17,14 @@ Lemma check_pattern_cases st pat u :
   (pattern_invalid pat u = true /\ exists m s, check_pattern st pat u = PvInvalid m s) \/
   (pattern_invalid pat u = false /\ exists s, check_pattern st pat u = PvValid s).
 Proof.
-  pose proof (check_pattern_indep st init_vst pat u) as Hind.
-  unfold pattern_invalid. unfold check_pattern in *.
-  destruct (validator_total init_vst pat u) as [[s0 E0]|[m0 [s0 E0]]]; rewrite E0 in *;
-    destruct (validator_total st pat u) as [[s E]|[m [s E]]]; rewrite E in *; cbn in Hind; try discriminate.
-  - right. split; [reflexivity|]. exists s; reflexivity.
-  - left. split; [reflexivity|]. exists m, s; reflexivity.
+  pose proof (validator_history_independent st init_vst pat u) as Hind.
+  pose proof (validator_total init_vst pat u) as T0.
+  pose proof (validator_total st pat u) as T1.
+  unfold pattern_invalid, check_pattern.
+  set (r0 := validate_pattern init_vst pat u) in *. set (r1 := validate_pattern st pat u) in *. clearbody r0 r1.
+  destruct T0 as [[s0 E0]|[m0 [s0 E0]]], T1 as [[s1 E1]|[m1 [s1 E1]]]; subst r0 r1; cbn in Hind; try discriminate.
+  - right. split; [reflexivity|]. exists s1; reflexivity.
+  - left. split; [reflexivity|]. exists m1, s1; reflexivity.
 Qed.
 
 Lemma both_modes_spec st pat :
